@@ -13,4 +13,5 @@ for id in "$@"; do
   echo "== $id rc=$rc: $(echo "$out" | grep -E '^(VIOLATION|OK|MACHINERY|KNOWN)' | head -3 | tr '\n' ' ')"
   echo "$out" | grep -E '^violation:' | head -2 | cut -c1-400
 done
-git -C /repo checkout -- . && git -C /repo clean -fdq -- . 
+git -C /repo checkout -- . && git -C /repo clean -fdq -- .
+git -C /verif checkout -- evidence 2>/dev/null; rm -f /verif/replays/C*.json /verif/replays/C*.txt
